@@ -1,6 +1,7 @@
 import NixModel.Lemmas.C12Agree
 import NixModel.Lemmas.C12Ops
 import NixModel.Lemmas.StoreWF
+import NixModel.Lemmas.C12Avail
 
 /-!
 # C12 — a refused operation leaves the file exactly as it was
@@ -150,6 +151,32 @@ theorem links_kept_in_order {g g' : Graph} (h : Unch g g') (k : Nat) (hk : Has g
     g.links k <+: g'.links k := by
   obtain ⟨extra, he, _⟩ := h.links k hk
   exact ⟨extra, he.symm⟩
+
+/-- **the rejected name remains available**: after *any* refused call, a `create_group / create_source /
+create_data_array / create_tag` with valid arguments that would have been accepted before the refused
+call is accepted after it — in particular the very call that was refused, with its argument corrected -/
+theorem name_still_available {g : Graph} (hWF : WF g) (op : OpW) (hD : OpW.DimsDense g op) (g' : Graph) (e : Err)
+    (h : applyW g op = some (g', some e)) (p : Path) (w n t : String) (ex : Option Nat)
+    (hw : w ≠ "multi_tag") (hvalid : (createInW g p w n t ex none).2 = none) :
+    (createInW g' p w n t ex none).2 = none := by
+  have hT := tidy_of_wf hWF
+  have hU := refused_unchanged hT.1 hT.2 op hD g' e h
+  exact createInW_of_accepts (hU.keysLt hT.1.keysLt) ex hw
+    (accepts_unch hWF hU (accepts_of_createInW hT.1.keysLt ex hvalid))
+
+/-- the instance the property names: `create_*(name, …, <invalid argument>)` is refused, then
+`create_*(name, …, <valid argument>)` succeeds, provided it would have succeeded in the first place -/
+theorem rejected_name_available {g : Graph} (hWF : WF g) (p : Path) (w n t : String) (f : Fault) (e : Err)
+    (hw : w ≠ "multi_tag") (href : (createInW g p w n t none (some f)).2 = some e)
+    (hvalid : (createInW g p w n t none none).2 = none) :
+    (createInW (createInW g p w n t none (some f)).1 p w n t none none).2 = none :=
+  name_still_available hWF (.createIn p w n t none (some f)) trivial _ e
+    (by simp only [applyW]; rw [← href]) p w n t none hw hvalid
+
+/-- every address keeps its meaning: a path that led to a node before the refused call leads to the
+same node after it -/
+theorem paths_kept {g g' : Graph} (h : Unch g g') (p : Path) (r : Loc)
+    (hr : resolve g rootLoc p = some r) : resolve g' rootLoc p = some r := h.resolve p hr
 
 /-! ## Non-vacuity: a refused `create_data_array` that had already written, on a reachable state -/
 
